@@ -68,6 +68,12 @@ func c13Years(c *ctx) {
 				}
 				l := s.GetLunar()
 				row["l"] = lun(l)[:3]
+				if k%2 == 0 {
+					// a caller that asked for the neighbouring terms (to the second) before the day-level counters
+					l.GetPrevJieQi()
+					l.GetNextJieQi()
+					l.GetPrevJie()
+				}
 				if sj := l.GetShuJiu(); sj != nil {
 					row["sj"] = []interface{}{sj.GetName(), sj.GetIndex(), sj.String(), sj.ToFullString()}
 				} else {
